@@ -170,7 +170,7 @@ def clip_property_oracle(case):
     for bi, b in enumerate(case["batches"]):
         for i in range(len(b[0])):
             sub = dict(case, batches=[[torch.cat([t[:i], t[i + 1 :]]) for t in bb] if j == bi else bb for j, bb in enumerate(case["batches"])], pieces=[1] * len(case["batches"]))
-            if k == "adaptive" and len(sub["batches"][bi][0]) == 0:
+            if k in ("adaptive", "perlayer-ddp") and len(sub["batches"][bi][0]) == 0:   # both raise on an empty batch (findings D21, C18-F2)
                 continue
             red = real_clip(sub)
             d = [np.array(u) - np.array(v) for u, v in zip(full, red)]
@@ -183,6 +183,20 @@ def clip_property_oracle(case):
                     n = float(np.sqrt((t**2).sum()))
                     if n > c * (1 + 1e-9):
                         return (f"C02:sensitivity:clip_and_accumulate:{k}", f"removing sample {i} moves one tensor of summed_grad by {n} > C_k={c}", {"moved": n, "bound": c})
+    return None
+
+
+def clip_oracle_around(cj):
+    """the property at the disagreeing case and at its neighbours with the per-layer bounds in increasing / decreasing order
+    (a bound applied to the wrong tensor only breaks the bound where it is the larger one)"""
+    case = case_from_json(cj)
+    cands = [case]
+    if isinstance(case["C"], list) and len(set(case["C"])) > 1:
+        cands += [dict(case, C=sorted(case["C"])), dict(case, C=sorted(case["C"], reverse=True))]
+    for c in cands:
+        res = clip_property_oracle(c)
+        if res:
+            return (res[0], res[1], dict(res[2], failing_input=case_json(c)))
     return None
 
 
@@ -223,7 +237,7 @@ def run_clip(ctx, cases):
         if ok:
             ctx.validated()
         else:
-            ctx.mismatch("clip", case_json(c), impl, mod, oracle=lambda cj: clip_property_oracle(case_from_json(cj)))
+            ctx.mismatch("clip", case_json(c), impl, mod, oracle=clip_oracle_around)
 
 
 # --------------------------------------------------------------------------- ghost norm samplers (exact)
